@@ -2,6 +2,7 @@ package h
 
 import (
 	"bufio"
+	"bytes"
 	"crypto/sha1"
 	"encoding/hex"
 	"encoding/json"
@@ -78,6 +79,11 @@ type Violation struct {
 	Hang     bool            `json:"hang,omitempty"`
 	// NoConfirm: the case comes from a free-running (timing dependent) pass and is not re-run
 	NoConfirm bool `json:"no_confirm,omitempty"`
+	// Shard/N: the worker that found it. History: the case alone does not reproduce it on a fresh process, but the
+	// worker's whole deterministic sequence of cases up to it does (state left behind by earlier cases)
+	Shard   int  `json:"shard"`
+	N       int  `json:"workers"`
+	History bool `json:"history,omitempty"`
 }
 
 type record struct {
@@ -311,7 +317,7 @@ func (w *W) Violation(sig string, c interface{}, expected, actual string, size i
 		return
 	}
 	b, _ := json.Marshal(c)
-	w.emit(record{T: "viol", Viol: &Violation{Property: w.ID, Tier: w.Tier, Sig: sig, Case: b, Expected: expected, Actual: actual, Size: size}})
+	w.emit(record{T: "viol", Viol: &Violation{Property: w.ID, Tier: w.Tier, Sig: sig, Case: b, Expected: expected, Actual: actual, Size: size, Shard: w.Shard, N: w.N}})
 }
 
 // ViolationNoConfirm reports a violation found by a free-running pass (not replayed for confirmation).
@@ -735,6 +741,13 @@ func drive(c *Check, tier string) int {
 			if v.Hang && confirmed == 1 {
 				confirmed = 3
 			}
+			if confirmed < 3 && !v.Hang && confirmByHistory(c, v) {
+				// the case alone does not show it, the worker's deterministic sequence of cases does (twice): the
+				// failure depends on state that earlier cases left behind in the process
+				v.History = true
+				v.Note += " [reproduced by re-running the finding worker's sequence of cases, not by the case alone: it depends on state left behind by earlier cases]"
+				confirmed = 3
+			}
 			if confirmed < 3 {
 				// not believed: a violation must reproduce identically on a fresh process
 				fmt.Fprintf(os.Stderr, "UNCONFIRMED property=%s violation %q reproduced %d/3 times in replay and is not reported; case=%s\n", c.ID, s, confirmed, trunc(string(v.Case), 400))
@@ -808,6 +821,56 @@ func replayInSubprocess(v *Violation) bool {
 	}
 }
 
+// confirmByHistory re-runs the worker that reported v (same check, tier, shard and worker count: the same
+// deterministic sequence of cases) twice on fresh processes and reports whether both runs report the same
+// violation (signature and case) again.
+func confirmByHistory(c *Check, v *Violation) bool {
+	if v.N == 0 {
+		return false
+	}
+	for k := 0; k < 2; k++ {
+		if !historyShows(c, v) {
+			return false
+		}
+	}
+	return true
+}
+
+func historyShows(c *Check, v *Violation) bool {
+	deadline := c.QuickDeadline
+	if v.Tier == "thorough" {
+		deadline = c.ThoroughDeadline
+	}
+	if deadline == 0 {
+		deadline = 10 * time.Minute
+	}
+	cmd := exec.Command(selfPath(), "-worker", c.ID, v.Tier, strconv.Itoa(v.Shard), strconv.Itoa(v.N), "0",
+		strconv.FormatFloat(deadline.Seconds(), 'f', 1, 64), "", "-1", "-1")
+	cmd.Env = append(os.Environ(), "GOMAXPROCS="+workerProcs(c), "GOTRACEBACK=single")
+	stdout, err := cmd.StdoutPipe()
+	if err != nil || cmd.Start() != nil {
+		return false
+	}
+	found := false
+	sc := bufio.NewScanner(stdout)
+	sc.Buffer(make([]byte, 1<<20), 64<<20)
+	for sc.Scan() {
+		var r record
+		if json.Unmarshal(sc.Bytes(), &r) == nil && r.T == "viol" && r.Viol != nil && r.Viol.Sig == v.Sig && bytes.Equal(r.Viol.Case, v.Case) {
+			found = true
+		}
+	}
+	done := make(chan error, 1)
+	go func() { done <- cmd.Wait() }()
+	select {
+	case <-done:
+	case <-time.After(deadline + time.Minute):
+		cmd.Process.Kill()
+		<-done
+	}
+	return found
+}
+
 func selfPath() string {
 	if p, err := os.Executable(); err == nil {
 		return p
@@ -850,6 +913,15 @@ func replayMain(path string) int {
 	if c == nil || c.Replay == nil {
 		fmt.Fprintln(os.Stderr, "no replayer for", v.Property)
 		return 2
+	}
+	if v.History {
+		fmt.Printf("property=%s\ncase=%s\n(history replay: worker %d of %d, tier %s)\n", v.Property, v.Case, v.Shard, v.N, v.Tier)
+		if historyShows(c, &v) {
+			fmt.Printf("VIOLATION property=%s replay=%s\n", v.Property, path)
+			return 1
+		}
+		fmt.Println("REPLAY: property holds on this history")
+		return 0
 	}
 	exp, act, ok := c.Replay(v.Case)
 	fmt.Printf("property=%s\ncase=%s\nexpected: %s\nactual:   %s\n", v.Property, v.Case, exp, act)
